@@ -628,11 +628,16 @@ fn u2f_registrations(rep: &mut Report, args: &Args, only: Option<u64>) {
         let mut rng = Rng::derive(args.seed, "c07u2f", k);
         let hl = *rng.pick(&[0usize, 1, 16, 64, 255, 256, 257, 300]);
         let handle = rng.bytes(hl);
-        let kind = rng.below(3);
-        let fault = kind == 0 && rng.chance(1, 3);
+        // any status byte can come back from a store (it may forward a backend's byte through From<u8>):
+        // the first cases walk through the list of codes, the others pick from it
+        let all_codes = codes(args.thorough());
+        let forced = (k as usize) < all_codes.len();
+        let kind = if forced { 0 } else { rng.below(3) };
+        let fault = forced || (kind == 0 && rng.chance(1, 3));
+        let fault_code = if forced { all_codes[k as usize] } else { *rng.pick(&all_codes) };
         let names = ["reference store", "MemoryStore", "Option<Passkey>"];
-        let case = json!({"index": index, "entry_point": "U2fApi::register", "store": names[kind], "key_handle_len": hl, "store_refuses_the_save": fault});
-        rep.nontrivial(fnv_str(&format!("u2freg|{kind}|{hl}|{fault}")));
+        let case = json!({"index": index, "entry_point": "U2fApi::register", "store": names[kind], "key_handle_len": hl, "store_refuses_the_save": fault, "status_the_save_fails_with": fault.then_some(fault_code)});
+        rep.nontrivial(fnv_str(&format!("u2freg|{kind}|{hl}|{fault}|{}", if fault { fault_code } else { 0 })));
         let req = RegisterRequest { challenge: rng.arr32(), application: rng.arr32() };
         let existing = seeded_passkey(&mut rng, "other.example", &[0xE1; 16], Some(b"x"), Some(2), None).0;
         let ids_of = |v: &[Passkey]| -> Vec<Vec<u8>> { v.iter().map(|p| p.credential_id.to_vec()).collect() };
@@ -641,7 +646,8 @@ fn u2f_registrations(rep: &mut Report, args: &Args, only: Option<u64>) {
                 let rig = Rig::ok(Disc::Full);
                 rig.store.insert_raw(existing.clone());
                 if fault {
-                    rig.store.set_fault(Kind::Save, 0, 0x28);
+                    rig.store.set_fault(Kind::Save, 0, fault_code);
+                    rep.count(&format!("u2f_save_fault:{fault_code:#04x}"));
                 }
                 let before = ids_of(&rig.store.passkeys());
                 let mut auth = rig.auth(AuthCfg::default());
@@ -732,12 +738,112 @@ fn u2f_registrations(rep: &mut Report, args: &Args, only: Option<u64>) {
     }
 }
 
+/// The stores shipped with the library are meant to be shared (that is what the lock wrappers are
+/// for) and the lock is not held while the user is asked: the record an assertion selected can leave the
+/// store, or be replaced, during the prompt. Whatever happens then, an assertion that is returned
+/// carries a counter value the store holds afterwards.
+fn records_leaving_during_the_prompt(rep: &mut Report, args: &Args, only: Option<u64>) {
+    use passkey_authenticator::MemoryStore;
+    use passkey_types::Passkey;
+    use std::sync::Arc;
+    let n = args.size(48, 480) as u64;
+    for k in 0..n {
+        let index = 47_000_000 + k;
+        if only.map_or(false, |o| o != index) {
+            continue;
+        }
+        rep.eval();
+        let mut rng = Rng::derive(args.seed, "c07leave", k);
+        let kind = (k % 4) as usize;
+        let what = ((k / 4) % 3) as usize;
+        let names = ["Arc<Mutex<MemoryStore>>", "Arc<RwLock<MemoryStore>>", "Arc<Mutex<Option<Passkey>>>", "Arc<RwLock<Option<Passkey>>>"];
+        let whats = ["the record is removed", "the store is emptied", "nothing happens"];
+        let start = *rng.pick(&[0u32, 1, 41, 0x7FFF_FFFF, u32::MAX - 1]);
+        let others = rng.range(0, 2);
+        let case = json!({"index": index, "part": "record leaves the shared store during the prompt", "store": names[kind], "during_the_prompt": whats[what], "stored_counter": start, "other_records": others});
+        rep.nontrivial(fnv_str(&format!("leave|{kind}|{what}|{start}|{others}")));
+        let id = rng.bytes(20);
+        let (p, _, _) = seeded_passkey(&mut rng, RP, &id, Some(b"user"), Some(start), None);
+        let other: Vec<Passkey> = (0..others).map(|j| seeded_passkey(&mut rng, RP, &[0xB0 + j as u8; 20], Some(b"other"), Some(7), None).0).collect();
+        let uv = crate::collab::RecUv::ok(crate::collab::Log::new());
+        let req = ga_request(RP, &[4u8; 32], Some(vec![descriptor(&id)]), None, true, true);
+        // (result, counter the store holds for the id afterwards)
+        let outcome: Result<(Result<u32, u8>, Option<Option<u32>>), (String, String)> = if kind < 2 {
+            let mut m = MemoryStore::new();
+            m.insert(id.clone(), p.clone());
+            for o in &other {
+                m.insert(o.credential_id.to_vec(), o.clone());
+            }
+            macro_rules! go {
+                ($shared:expr, $w:ident, $r:ident) => {{
+                    let shared = $shared;
+                    let s2 = shared.clone();
+                    let id2 = id.clone();
+                    uv.set_action_during_check(Box::new(move || {
+                        if let Ok(mut g) = s2.$w() {
+                            match what {
+                                0 => {
+                                    g.remove(&id2);
+                                }
+                                1 => g.clear(),
+                                _ => {}
+                            }
+                        }
+                    }));
+                    let mut auth = mk_auth(shared.clone(), uv.clone(), AuthCfg { counters: true, ..Default::default() });
+                    catch(|| {
+                        let r = block_on(auth.get_assertion(req)).map(|r| authdata::decode(&r.auth_data.to_vec()).map(|d| d.counter).unwrap_or(0)).map_err(|e| status_byte_ref(&e));
+                        let held = shared.$r().ok().map(|g| g.get(&id).and_then(|p| p.counter));
+                        (r, held)
+                    })
+                }};
+            }
+            if kind == 0 { go!(Arc::new(tokio::sync::Mutex::new(m)), try_lock, try_lock) } else { go!(Arc::new(tokio::sync::RwLock::new(m)), try_write, try_read) }
+        } else {
+            macro_rules! go {
+                ($shared:expr, $w:ident, $r:ident) => {{
+                    let shared = $shared;
+                    let s2 = shared.clone();
+                    uv.set_action_during_check(Box::new(move || {
+                        if let Ok(mut g) = s2.$w() {
+                            if what < 2 {
+                                *g = None;
+                            }
+                        }
+                    }));
+                    let mut auth = mk_auth(shared.clone(), uv.clone(), AuthCfg { counters: true, ..Default::default() });
+                    catch(|| {
+                        let r = block_on(auth.get_assertion(req)).map(|r| authdata::decode(&r.auth_data.to_vec()).map(|d| d.counter).unwrap_or(0)).map_err(|e| status_byte_ref(&e));
+                        let held = shared.$r().ok().map(|g| g.as_ref().filter(|p| p.credential_id.to_vec() == id).and_then(|p| p.counter));
+                        (r, held)
+                    })
+                }};
+            }
+            if kind == 2 { go!(Arc::new(tokio::sync::Mutex::new(Some(p.clone()))), try_lock, try_lock) } else { go!(Arc::new(tokio::sync::RwLock::new(Some(p.clone()))), try_write, try_read) }
+        };
+        match outcome {
+            Err((sig, d)) => rep.violate(&format!("shared shipped store: assertion {sig}"), d, case),
+            Ok((Err(_), _)) => rep.count("leaving_record_assertion_refused"),
+            Ok((Ok(_), None)) => rep.count("leaving_record_store_unreadable"),
+            Ok((Ok(c), Some(held))) => {
+                rep.count("leaving_record_assertion_returned");
+                if what < 2 {
+                    rep.count("leaving_record_left_and_assertion_returned");
+                }
+                if held != Some(c) {
+                    rep.violate("shared shipped store: an assertion was returned although the store does not hold its counter value", format!("{}: {}; assertion carries {c}, the store holds {held:?} for the credential", names[kind], whats[what]), case);
+                }
+            }
+        }
+    }
+}
+
 pub fn run(args: &Args) -> Report {
     let mut rep = Report::new(
         "C07",
         &args.tier,
         args.seed,
-        "for each request shape (registration/authentication x client/CTAP level x exclude/allow list x PRF extension x counters x rk): a clean run to learn the store-call sequence, then every faultable store call failing with each status byte of the tier's set, all pairs of calls failing with 4 codes, and cancellation after every number of polls with collaborators yielding 1 and 2 times per call, plus cancellation while the store lock is held by another task; authentication shapes with the stored counters at u32::MAX; registrations (1-2 in a row) through the shipped stores and their lock wrappers, empty or already occupied; silent assertions; U2F registrations with key handles of 0-300 bytes over the reference store (also refusing the save) and the shipped stores; distinct by (shape, fault set or cancellation step, yield plan); non-trivial when the fault or cancellation point was actually reached",
+        "for each request shape (registration/authentication x client/CTAP level x exclude/allow list x PRF extension x counters x rk): a clean run to learn the store-call sequence, then every faultable store call failing with each status byte of the tier's set, all pairs of calls failing with 4 codes, and cancellation after every number of polls with collaborators yielding 1 and 2 times per call, plus cancellation while the store lock is held by another task; authentication shapes with the stored counters at u32::MAX; registrations (1-2 in a row) through the shipped stores and their lock wrappers, empty or already occupied; silent assertions; U2F registrations with key handles of 0-300 bytes over the reference store (also refusing the save with each status byte) and the shipped stores; assertions on shared shipped stores whose record is removed during the prompt; distinct by (shape, fault set or cancellation step, yield plan); non-trivial when the fault or cancellation point was actually reached",
     );
     rep.exhaustive = true;
     rep.assumptions.push("get_info of the store cannot fail (it returns no Result), so only lookup, save and update are faulted".into());
@@ -899,6 +1005,7 @@ pub fn run(args: &Args) -> Report {
     if only.is_none() || only.map_or(false, |o| (40_000_000..50_000_000).contains(&o)) {
         shipped_store_registrations(&mut rep, args, only);
         u2f_registrations(&mut rep, args, only);
+        records_leaving_during_the_prompt(&mut rep, args, only);
     }
     rep.obs("shapes", json!(Shape::all().len()));
     rep.obs("status_bytes_per_call", json!(codes(args.thorough()).len()));
